@@ -265,6 +265,9 @@ func runSimCaseWith(t *rapid.T, o simOpts, setup func(*sim.World)) *sim.World {
 	}
 	w.Start()
 	sw := drawSwarm(t, len(cfg.Byz) > 0 || cfg.Outsiders > 0)
+	if o.Focus == "C14" && sw.sync < 2 {
+		sw.sync = 2 // sync-heavy runs: any committed block to any node, so most of them are stale
+	}
 	// scenario template: a Byzantine leader of view 0 proposes an honest-looking block, the correct members' PREPAREs (and
 	// COMMITs) never reach each other but the adversary sees them, the correct members time out until a Byzantine member leads
 	// again, and that leader sends a NEW_VIEW from the preset catalogue, backed by Byzantine PREPAREs/COMMITs.
